@@ -67,6 +67,7 @@ def fill_depressions(
     """
     nrow, ncol = elevtn.shape
     delv = np.zeros_like(elevtn)
+    elevtn_out = elevtn.copy()
     done = np.isnan(elevtn) if np.isnan(nodata) else elevtn == nodata
     d8 = np.where(done, np.uint8(247), np.uint8(0))
     if connectivity not in [4, 8]:
@@ -92,13 +93,13 @@ def fill_depressions(
     # queue contains (elevation, boundary, row, col)
     # boundary is included to favor non-boundary cells over boundary cells with same elevation
     q = [
-        (np.float32(elevtn[0, 0]), np.uint8(1), np.uint32(0), np.uint32(0))
+        (np.float64(elevtn[0, 0]), np.uint8(1), np.uint32(0), np.uint32(0))
         for _ in range(0)
     ]
     heapq.heapify(q)
     for r, c in zip(*np.where(queued)):
         heapq.heappush(
-            q, (np.float32(elevtn[r, c]), np.uint8(1), np.uint32(r), np.uint32(c))
+            q, (np.float64(elevtn[r, c]), np.uint8(1), np.uint32(r), np.uint32(c))
         )
     # restrict queue to global edge mimimum (single outlet)
     if outlets == "min":
@@ -121,7 +122,7 @@ def fill_depressions(
             if max_depth >= 0:  # if positive max_depth: don't fill when dz > max_depth
                 if dz >= max_depth:
                     heapq.heappush(
-                        q, (np.float32(z1), np.uint8(0), np.uint32(r), np.uint32(c))
+                        q, (np.float64(z1), np.uint8(0), np.uint32(r), np.uint32(c))
                     )
                     queued[r, c] = True
                     for dr, dc in zip(drs, dcs):  # (re)visit neighbors
@@ -130,17 +131,20 @@ def fill_depressions(
                 elif delv[r, c] > 0:  # reset cell if previously filled & revisited
                     queued[r, c] = False
                     delv[r, c] = 0
+                    elevtn_out[r, c] = elevtn[r, c]
+            z2 = np.float64(z1)
             if dz > 0:  # check if local depression (dz>0)
                 delv[r, c] = dz
-                z1 += dz
+                elevtn_out[r, c] = z0  # fill to the spill level itself (no rounding)
+                z2 = z0
             if ~queued[r, c]:  # add to queue
                 heapq.heappush(
-                    q, (np.float32(z1), np.uint8(0), np.uint32(r), np.uint32(c))
+                    q, (z2, np.uint8(0), np.uint32(r), np.uint32(c))
                 )
                 queued[r, c] = True
             done[r, c] = True
             d8[r, c] = core_d8._us[dr + 1, dc + 1]
-    return elevtn + delv, d8
+    return elevtn_out, d8
 
 
 @njit
